@@ -79,6 +79,9 @@ MenuBurstA == {<<>>, Burst24, Burst6, <<Sched(1), Sched(1), Send("ao", 2)>>}
 MenuBurst == [m \in {"a", "b", "c"} |-> IF m = "a" THEN MenuBurstA ELSE {<<>>, <<Send("bo", 1), Send("bo", 1)>>}]
 StartBurst == [m \in {"a", "b", "c"} |-> IF m = "a" THEN {Burst24, Burst6} ELSE {<<>>}]
 Stack2 == [m \in {"a", "b", "c"} |-> 2]
+(* C04, design level: with the scripts fixed (singleton menus) the interpreter has exactly one behaviour *)
+MenuDet == [m \in {"a", "b", "c"} |-> IF m = "a" THEN {<<Send("ao", 2), Sched(1), Send("at", 1)>>} ELSE IF m = "b" THEN {<<Send("bo", 1)>>} ELSE {<<Sched(2)>>}]
+StartDet == [m \in {"a", "b", "c"} |-> IF m = "a" THEN {<<Send("ao", 1), Send("ao", 3), Sched(1)>>} ELSE {<<Sched(1)>>}]
 Stack3 == [m \in {"a", "b", "c"} |-> 3]
 NoEndFail == {}
 EndFailA == {"a"}
